@@ -254,6 +254,16 @@ def _model(pdk, table, idx, sized, mult):
     return True
 
 
+def _reset_registry(hp):
+    """empty hdl21.pdk's process-global registry (private state: tolerate a refactor)"""
+    try:
+        mgr = hp.pdk._mgr
+        mgr.modules.clear(); mgr.names.clear(); mgr.default = None
+        return True
+    except AttributeError:
+        return False
+
+
 def _hier(pdk, depth, share, twice, form):
     """generic primitives at any depth of a hierarchy with shared sub-modules: only Instance.of changes"""
     from vlib.dsl import Mod, Inst, Prim, Ext, Sig, Idx
@@ -281,7 +291,8 @@ def _hier(pdk, depth, share, twice, form):
     before, bl = pkg_nets(h.to_proto(m), with_params=False)
     env.COUNTS["reached"] += 1
     import hdl21.pdk as hp
-    hp.pdk._mgr.modules.clear(); hp.pdk._mgr.names.clear(); hp.pdk._mgr.default = None
+    if not _reset_registry(hp) and form != 0:
+        return True  # the PDK registry cannot be emptied from outside (internals changed): registry forms are not exercised
     try:
         if form == 0:
             P.compile(m)
@@ -301,7 +312,7 @@ def _hier(pdk, depth, share, twice, form):
     except BAD as ex:
         return _fail(f"{pdk} compile form {form}: non-descriptive {type(ex).__name__}: {str(ex)[:150]}")
     finally:
-        hp.pdk._mgr.modules.clear(); hp.pdk._mgr.names.clear(); hp.pdk._mgr.default = None
+        _reset_registry(hp)
     pkg = h.to_proto(m)
     probs = check_package(pkg)
     if probs:
